@@ -36,6 +36,7 @@ type World struct {
 	fgs     map[*ssa.Function]*FG
 	// inlining of freshly extracted private helpers (inline.go)
 	fgis     map[*ssa.Function]*FG
+	fgflat   map[*ssa.Function]*FG
 	inlSites map[*ssa.Function][]*ssa.Call // helper -> its call sites
 	cur      *FG                           // graph whose splices give access paths their context
 	gsub     *FG                           // substitutions of helpers with a single call site (context-free)
